@@ -38,9 +38,9 @@ def random_history(rng, nclients, nnames, steps):
         elif r < 0.62:
             a = ('ToBus', (rng.choice(live), rng.choice(['GetId', 'HelloAgain', 'NoSuchMethod', 'SignalToBus'])))
         elif r < 0.76:
-            a = ('AddMatch', (rng.choice(live), rng.choice(['R1', 'R2', 'R3', 'R4', 'R5', 'R6'])))
+            a = ('AddMatch', (rng.choice(live), rng.choice(['R1', 'R2', 'R3', 'R4', 'R5', 'R6', 'R7'])))
         elif r < 0.84:
-            a = ('RemoveMatch', (rng.choice(live), rng.choice(['R1', 'R2', 'R3', 'R4', 'R5', 'R6'])))
+            a = ('RemoveMatch', (rng.choice(live), rng.choice(['R1', 'R2', 'R3', 'R4', 'R5', 'R6', 'R7'])))
         else:
             a = ('Emit', (rng.choice(live), rng.choice(['S1', 'S2', 'S3'])))
         drv.apply(*a)
@@ -55,7 +55,7 @@ def run(tier, seed):
     rng = random.Random(seed)
     thorough = tier == 'thorough'
     params = {'clients': 2, 'names': 1}
-    cfgtxt = c13.cfg([1, 2], [1], 3, spec='SpecRouting', props=False, rules='{"R2", "R5", "R6"}', sigs='{"S1", "S2"}', match='cMatch',
+    cfgtxt = c13.cfg([1, 2], [1], 3, spec='SpecRouting', props=False, rules='{"R2", "R5", "R6", "R7"}', sigs='{"S1", "S2"}', match='cMatch',
                      maxrules=1)
     cfgtxt = cfgtxt.replace('CHECK_DEADLOCK FALSE\n', 'PROPERTY NeverReused\nCHECK_DEADLOCK FALSE\n')
     res, g = tlc.dump_graph(BASE, 'b.cfg', extra={'b.cfg': cfgtxt}, timeout=900)
@@ -70,7 +70,7 @@ def run(tier, seed):
     core.replay_paths(chk, g, list(core.random_walks(g, 5000 if thorough else 700, 14, rng)), lambda a: make_driver(params, a),
                       'walks', 'c14', params)
     if thorough:
-        cfg3 = c13.cfg([1, 2, 3], [1], 3, spec='SpecRouting', props=False, rules='{"R2", "R5", "R6"}', sigs='{"S1", "S2"}', match='cMatch',
+        cfg3 = c13.cfg([1, 2, 3], [1], 3, spec='SpecRouting', props=False, rules='{"R2", "R5", "R6", "R7"}', sigs='{"S1", "S2"}', match='cMatch',
                        maxrules=1)
         res, _ = tlc.run(BASE, 'b.cfg', extra={'b.cfg': cfg3}, timeout=3000)
         chk.tlc_stats(res, 'Bus routing: 3 clients')
